@@ -115,16 +115,18 @@ theorem readLenBlock_ok {skip w pad : Nat} {d : B} {p : Nat} {x : B} {p' : Nat}
     · rename_i n p1 hn
       split at h
       · cases h
-      · rename_i y p2 hy
-        split at h
+      · split at h
         · cases h
-        · rename_i hlen
+        · rename_i y p2 hy
           split at h
           · cases h
-          · cases h
-            have hlen' : x.length = n := by simpa using hlen
-            rw [hlen']
-            exact (readU_ok hn).1
+          · rename_i hlen
+            split at h
+            · cases h
+            · cases h
+              have hlen' : x.length = n := by simpa using hlen
+              rw [hlen']
+              exact (readU_ok hn).1
 
 theorem readPascal_ok {pad : Nat} {d : B} {p : Nat} {x : B} {p' : Nat}
     (h : readPascal pad d p = .ok (x, p')) : x.length < 256 := by
